@@ -226,6 +226,19 @@ def search(ctx):
                         if not (max(abs(a - b) for a, b in zip(gr, gf)) <= 1e-7):
                             ctx.violation("C13:strategy-reuse:%s" % sname, "a strategy object that has fitted a bounded model gives %r for another (unbounded) model and data set, a fresh strategy %r (generating values %r)" % (
                                 gr, gf, [truthB['r'], truthB['x'], truthB['y'], truthB['z'], truthB['alpha']]), dict(info2, truthB=truthB, startB=startB))
+                    # --- fits on a random pixel subset are repeatable for EVERY seed the strategy accepts (0 is a seed)
+                    if S is NmpfitStrategy:
+                        for sd_ in (0, int(rng.integers(1, 1000))):
+                            ctx.tried("subset-repeatable", (sname, sd_, i))
+                            np.random.random(3)
+                            ra = hp.fit(data, model2, strategy=S(npixels=40, seed=sd_, maxiter=3))
+                            np.random.random(5)
+                            rb = hp.fit(data, model2, strategy=S(npixels=40, seed=sd_, maxiter=3))
+                            pa_, pb_ = [ra.parameters[nm] for nm in names], [rb.parameters[nm] for nm in names]
+                            if pa_ != pb_:
+                                ctx.violation("C13:repeat:subset-seed", "two fits on a 40-pixel subset with seed=%d (3 iterations) return different parameters: %r vs %r" % (sd_, pa_, pb_),
+                                              dict(info2, seed=sd_))
+                                break
                     # --- pixel subset
                     if i % 2 == 0:
                         ctx.tried("subset", (sname, i))
